@@ -13,7 +13,9 @@ SOURCES = ['silk/NLSF_decode.c', 'silk/NLSF_stabilize.c', 'silk/NLSF2A.c', 'silk
            'silk/pitch_est_defines.h', 'silk/structs.h', 'silk/tables_gain.c', 'silk/tables_pitch_lag.c',
            'celt/arch.h', 'silk/decode_core.c', 'silk/LPC_analysis_filter.c', 'silk/decoder_set_fs.c', 'silk/decode_frame.c',
            'silk/PLC.c', 'silk/PLC.h', 'silk/CNG.c', 'celt/stack_alloc.h', 'silk/tables_LTP.c', 'silk/tables_other.c',
-           'silk/sum_sqr_shift.c', 'silk/bwexpander.c', 'silk/dec_API.c', 'silk/init_decoder.c']
+           'silk/sum_sqr_shift.c', 'silk/bwexpander.c', 'silk/dec_API.c', 'silk/init_decoder.c', 'silk/stereo_MS_to_LR.c',
+           'silk/resampler.c', 'silk/resampler_structs.h', 'silk/resampler_private_up2_HQ.c', 'silk/resampler_private_IIR_FIR.c',
+           'silk/resampler_private_down_FIR.c', 'silk/resampler_private_AR2.c', 'silk/decode_parameters.c', 'silk/decode_pitch.c']
 REQUIRED_THEOREMS = ['OpusProps.C18.' + t for t in (
     'cb_wellformed', 'stabilize_post', 'nlsf_decode_ordered', 'nlsf2a_passes_stability',
     'decode_parameters_stable', 'gain_index_inv', 'gain_step_range', 'gain_step_nowrap',
@@ -25,7 +27,8 @@ REQUIRED_THEOREMS = ['OpusProps.C18.' + t for t in (
     'inverse_pred_gain_reflection_bounded', 'nlsf2a_reflection_bounded',
     # index-safety bridge to the synthesis interior
     'decode_core_indices_in_bounds', 'decode_core_safe_after_decode_pitch', 'plc_conceal_indices_in_bounds',
-    'decode_frame_indices_in_bounds', 'silk_synthesis_indices_in_bounds', 'decode_parameters_indices_in_bounds')]
+    'decode_frame_indices_in_bounds', 'silk_synthesis_indices_in_bounds', 'decode_parameters_indices_in_bounds',
+    'decode_output_indices_in_bounds')]
 UNPROVED = ['nlsf2a_nowrap_d16 (the full statement is a comment block in OpusProps/C18.lean): for ORDERED NLSF vectors of order 16 '
             'the final subtraction a32_QA1[k] = -/+Qtmp - Ptmp (NLSF2A.c:125-126) fits 32 bits. Proved instead '
             '(nlsf2a_nowrap_d16_partial): everything before that subtraction fits for all in-range inputs, |a32_QA1| < 2^31.66, '
@@ -137,6 +140,7 @@ def ties(ctx):
     out.append(_tie('silkparams-synthidx-core', [hs, 'core', s, '4000' if q else '200000']))
     out.append(_tie('silkparams-synthidx-frames', [hs, 'frames', s, '1500' if q else '60000']))
     out.append(_tie('silkparams-synthidx-params', [hs, 'params', s, '6000' if q else '300000']))
+    out.append(_tie('silkparams-synthidx-out', [hs, 'out', s, '1200' if q else '40000']))
     _branch_notes(h, s, out)
     return out
 
@@ -193,7 +197,7 @@ def _spaced(x, d):
     return all(x[i] - x[i - 1] >= d[i] for i in range(1, len(x)))
 
 
-DECODER_OPS = {'synthcore', 'synthframe', 'synthparams', 'stab', 'unpack', 'nlsfdec', 'nlsf2a', 'invgain', 'lpcfit', 'bwexp32', 'gdeq', 'log2lin', 'pitch',
+DECODER_OPS = {'synthcore', 'synthframe', 'synthparams', 'synthout', 'stab', 'unpack', 'nlsfdec', 'nlsf2a', 'invgain', 'lpcfit', 'bwexp32', 'gdeq', 'log2lin', 'pitch',
                'decparams'}
 
 
@@ -233,6 +237,10 @@ def classify(ctx, tie, mm):
     why = None
     if impl in ('SANITIZER', 'ABORT', 'SIGSEGV'):
         why = 'the dequantiser trapped (%s: out-of-bounds table read, undefined behaviour or assertion) on this input' % impl
+    elif op == 'synthout':
+        why = ('the element indices the output stage of silk_Decode (frame buffers, silk_stereo_MS_to_LR, silk_resampler incl. its '
+               'kernels, interleaving; recorded on the repo source) actually read / wrote differ from the index model of theorem '
+               'decode_output_indices_in_bounds' + ('; a celt_assert fired' if impl == 'ABORT' else ''))
     elif op == 'synthparams':
         why = ('the element indices silk_decode_parameters actually read / wrote (side-information arrays, LTP codebooks, control '
                'arrays; recorded on the repo source) differ from the index model of theorem decode_parameters_indices_in_bounds')
